@@ -172,6 +172,23 @@ CHECKS = {
              "backend); WebAuthn finish shares the U2F challenge path and is driven through /u2f/SignResponse only. Time is "
              "advanced by ageing stored state.",
         ref="DESIGN.md 4 C05"),
+    "C15": dict(
+        module="KMStorage",
+        technique="TLA+ storage model with the synchronisation as its SQL statement sequence and a fault at every statement "
+                  "(TLC exhaustive + as-built negative controls) ; TLC-simulated and systematic fault histories on real sqlite "
+                  "files through a fault-injecting driver ; TLC trace monitor on the projected content of both stores",
+        text="KMStorage models primary and cache (profiles and signed records with expiry), the synchronisation as begin / "
+             "delete / insert* / upsert* / commit over a transaction-local view with a rollback alternative at every "
+             "statement, cleanup, outage and mutating requests during an outage; TLC proves MirrorAfterSync, NoMixture and "
+             "OutageReadOnly for all histories within the bounds and four as-built flags reproduce the code's former defects. "
+             "The implementation is driven with a fault injected at every statement index of a synchronisation that has "
+             "additions, changes and deletions pending, with outage and expiry scenarios and with TLC-simulated histories; "
+             "profiles carry real token data; after each step both sqlite files are projected to user->version maps and the "
+             "TLC monitor checks round trip, mirror-after-sync, no-mixture, cleanup, refused writes and continued "
+             "authentication during the outage.",
+        note="A fault is an error returned by the driver at that statement; a process crash is equivalent for sqlite (the open "
+             "transaction is rolled back on reopen) and is not separately driven. Postgres primary is not exercised.",
+        ref="DESIGN.md 4 C15"),
 }
 PENDING_REASON = "check not built yet in this session (specification module planned in DESIGN.md section 4); not claimed until its check runs clean on the unchanged tree"
 ALL = ["C%02d" % i for i in range(1, 21)]
